@@ -112,7 +112,7 @@ package hackpadfs
 
 //@ extern io/fs.ReadDir(fsys FS, name string) (entries []DirEntry, err error)
 //@   deterministic
-//@   ensures "entries" implies(err == nil, forall(i, 0, len(entries), entries[i] != nil))
+//@   ensures "entries" forall(i, 0, len(entries), entries[i] != nil)   // also for the partial listing returned with an error
 
 //@ extern io/fs.ReadFile(fsys FS, name string) (data []byte, err error)
 //@   deterministic
@@ -182,7 +182,7 @@ package hackpadfs
 //@ func ReadDir(fs FS, name string) (entries []DirEntry, err error)
 //@   props C06 C07 C08 C16 C05
 //@   deterministic
-//@   ensures "entries" implies(err == nil, forall(i, 0, len(entries), entries[i] != nil))
+//@   ensures "entries" forall(i, 0, len(entries), entries[i] != nil)   // also for the partial listing returned with an error
 //@   ensures "native" implies(implements(fs, ReadDirFS), entries == old(ret("hackpadfs.(ReadDirFS).ReadDir", 0, fs, name)) && err == old(ret("hackpadfs.(ReadDirFS).ReadDir", 1, fs, name)) &&
 //@                      world() == old(worldAfter("hackpadfs.(ReadDirFS).ReadDir", fs, name)))
 //@   ensures "mount" implies(!implements(fs, ReadDirFS) && implements(fs, MountFS),
